@@ -235,7 +235,10 @@ pub fn judge_roundtrip(tape: &[u8]) -> Vec<(String, String)> {
             _ => ("CtapOptions", crate::cbor::encode(&crate::resp::gen_ctap_options(&mut c).1)),
         }
     };
-    match rt_named(name, &bytes) {
+    let mut results = vec![(name, rt_named(name, &bytes))];
+    results.extend(crate::mon::c15::rt_dispatch(name, &bytes));
+    for (name, r) in results {
+    match r {
         Ok(Rt::Done { reencoded, redecoded_equal }) => {
             if reencoded != bytes {
                 out.push((format!("C15|{}|decode-encode-differs", name), format!("{} -> {}", crate::cbor::hex(&bytes[..bytes.len().min(200)]), crate::cbor::hex(&reencoded[..reencoded.len().min(200)]))));
@@ -247,6 +250,7 @@ pub fn judge_roundtrip(tape: &[u8]) -> Vec<(String, String)> {
         Ok(Rt::Rejected(e)) => out.push((format!("C15|{}|canonical-bytes-rejected", name), format!("{} rejected: {}", crate::cbor::hex(&bytes[..bytes.len().min(200)]), e))),
         Ok(Rt::SerErr(e)) => out.push((format!("C15|{}|serialize-error", name), e)),
         Err(p) => out.push((format!("C15|{}|panic|{}", name, crate::report::panic_site(&p)), p)),
+    }
     }
     out
 }
